@@ -29,7 +29,7 @@ def modelOnly : PyErr → Bool
 
 /-- raise sites of the model that are not excluded here -/
 def residual : PyErr → Bool
-  | .indexError site => site == "savedReplacements.pop(0)" || site == "match[0][0] paragraph" || site == "ids.pop()"
+  | .indexError site => site == "savedReplacements.pop(0)" || site == "match[0][0] paragraph"
       || site == "htmlSafeModeFilter(match[1])" || site == "entity match[1]"
   | .valueError _ => true
   | .assertion site => site == "m is not None"
